@@ -33,7 +33,9 @@ JSONLIKE = (type(None), bool, int, float, str, list, dict)
 ANNS = ("Hs", "OptHs", "Any", "int", "Optint")
 DEFAULTS = ("MISSING", "None", "value", "factory", "falsy")
 ALIASES = ("-", "meta", "annotated", "config")
-ROLES = ("pos", "kw_only", "after_KW_ONLY", "init_false", "initvar", "classvar", "inherited", "overridden")
+ROLES = ("pos", "kw_only", "after_KW_ONLY", "init_false", "initvar", "classvar", "inherited", "overridden", "cls_kw_only")
+# cls_kw_only: the class is decorated @dataclass(kw_only=True); the field itself says nothing (while the mixin compiles the class inside
+# __init_subclass__, before the decorator ran, such a Field has no kw_only yet)
 
 
 # ---------------------------------------------------------------------------------------------
@@ -248,7 +250,7 @@ def class_source(p: Point, cname="C", mixin=True):
             body = ["pass"]
         src += ["    " + l for l in body]
         bases = [f"Base{cname}"]
-    src.append("@dataclass")
+    src.append("@dataclass(kw_only=True)" if any(f.role == "cls_kw_only" for f in p.fields) else "@dataclass")
     src.append(f"class {cname}({', '.join(bases)}):" if bases else f"class {cname}:")
     body = []
     for f in p.fields:
@@ -917,6 +919,12 @@ def lattice_c05(tier):
                     pts.append(Point((F("a", a1, d1, "-", r1), F("b", a2, d2)), forbid_extra_keys=forbid))
                 else:
                     pts.append(Point((F("a", a1, d1, "-", r1), F("b", a2, d2, "-", r2)), forbid_extra_keys=forbid))
+    # @dataclass(kw_only=True): required fields declared through field(...) (alias in the metadata) and plainly, before / after defaulted ones
+    for al in ("meta", "-"):
+        for (a2, d2) in (("Hs", "value"), ("OptHs", "None"), ("Hs", "MISSING")):
+            for base in ("mixin", "plain"):
+                pts.append(Point((F("a", "Hs", "MISSING", al, "cls_kw_only"), F("b", a2, d2, "-", "cls_kw_only")), base=base))
+                pts.append(Point((F("b", a2, d2, "-", "cls_kw_only"), F("a", "Hs", "MISSING", al, "cls_kw_only")), base=base))
     # hooks, dialect support, inherited classes, codec path
     for (a1, d1) in KINDS:
         f = (F("a", a1, d1),)
